@@ -129,6 +129,32 @@ class AccessMonitor(Monitor):
         raise Violation('element %s outside every live array and global' % kind, addr=addr, n=n, ap=ap, fp=fp,
                         extents=list(st.m['ext'])[-4:])
 
+    def wide(self, vm, st, ins, kind, addr, n, conds):
+        """a state access whose address has too many feasible values to enumerate: is some value outside every region the
+        access is entitled to?  (decided by the solver; a model is a concrete out-of-region access)"""
+        import z3
+        pi = info_of(vm)
+        ap, fp = cur(vm, st, pi.ap), cur(vm, st, pi.fp)
+        if not isc(ap) or not isc(fp):
+            return
+        base = ins.args[1] if kind == 'load' else ins.args[0]
+        B = vm.B
+        a = addr
+
+        def inside(lo, hi):
+            return z3.And(z3.UGE(a, z3.BitVecVal(lo, B)), z3.ULE(a, z3.BitVecVal(hi - n, B))) if hi - n >= lo else z3.BoolVal(False)
+        if base.kind == 'state' and base.val == pi.fp:
+            allowed = [inside(ap, fp)]
+        else:
+            allowed = [inside(s, e) for s, e in st.m['ext']] + [inside(s, e) for s, e, _ in pi.globals]
+            if st.pc >= pi.stdlib_start:
+                allowed.append(inside(ap, fp))
+        bad = z3.Not(z3.Or(*allowed)) if allowed else z3.BoolVal(True)
+        if vm.feasible(conds, bad):
+            m = vm.model(list(conds) + [bad])
+            raise Violation('%s through an unchecked index: the address can fall outside every live array and global' % kind,
+                            example_address=m.eval(a, True).as_long() if m is not None else None, ap=ap, fp=fp, _conds=[bad])
+
     def jump(self, vm, st, ins, tgt, operand):
         if operand.kind != 'imm':
             pi = info_of(vm)
